@@ -59,7 +59,11 @@ func c04Gen(rt *rapid.T) c04Case {
 		cr.SQL = gen.RenderStmt(gen.Plain(), cr)
 		gen.MustApply(db, cr)
 		c.Stmts = append(c.Stmts, cr)
-		rows := rapid.SampledFrom([]int{1040, 1100, 1200, 1400, 1760}).Draw(rt, "bulk_rows")
+		sizes := []int{1040, 1100, 1200, 1400}
+		if Cfg.Tier == "thorough" {
+			sizes = append(sizes, 1760) // past the first split of a non-root internal page (costly: one flush of 400+ pages)
+		}
+		rows := rapid.SampledFrom(sizes).Draw(rt, "bulk_rows")
 		for n := 0; n < rows; {
 			ins := model.Stmt{Kind: "insert", Table: "big"}
 			for i := 0; i < 100 && n < rows; i++ {
@@ -304,11 +308,18 @@ func recoverCompareThen(img string, f *flushRec, followUp bool) string {
 	for i, j := 0, len(names)-1; i < j; i, j = i+1, j-1 {
 		names[i], names[j] = names[j], names[i]
 	}
-	for _, name := range names {
+	for ni, name := range names {
 		t := m.Tables[name]
 		s := model.Stmt{Kind: "insert", Table: name, Rows: [][]model.Val{make([]model.Val, len(t.Cols))}}
 		for i := range t.Cols {
 			s.Rows[0][i] = model.Null()
+		}
+		if ni == 0 && (len(t.Rows)+len(names))%2 == 0 {
+			// in half of the follow-ups the first insert is large enough to split a leaf: the
+			// recovered allocation frontier is used at once
+			for len(s.Rows) < 9 {
+				s.Rows = append(s.Rows, s.Rows[0])
+			}
 		}
 		m.Apply(s)
 		if err := eng.ExecStmt(s); err != nil {
